@@ -28,6 +28,7 @@ def conditions(tier):
         cs.append(Cond(M, "cells_equal_reference", {"maxlen": 4, "maxind": 1, "maxtail": 2}, T=2400))
         cs.append(Cond(M, "cell_round_trip", {"maxlen": 4}, T=2400, reach=["linefeed-in-cell"]))
     cs.append(Cond(M, "rectangular", T=120, reach=["ragged"]))
+    cs.append(Cond("harness.c18", "scan_text", {"maxlen": 4}, T=600, reach=["two-lines"]))
     # reachability / falsity twins: each must be refuted with a replayable witness
     for f in ("split_twin_never_two_cells", "split_twin_no_linefeed", "split_twin_no_backslash_kept",
               "cells_twin_never_trimmed", "round_trip_twin", "rectangular_twin"):
